@@ -205,178 +205,204 @@ func (p *Prog) readOnlyGlobalTables() map[*ssa.Global]*globalTable {
 	return out
 }
 
-// constFnEval evaluates fn(k) for a constant k of its last parameter. The result is the ExactString of
-// the returned constant, "?<expr>" when the path returns a non-constant, or ok=false when a branch could
-// not be decided.
+// constFnEval evaluates fn(k) for a constant k of its last parameter by interpreting the function's SSA
+// form concretely: integer/string/boolean constants, conversions, comparisons, + and -, phis, loops,
+// and reads of read-only package-level tables. The result is the ExactString of the returned constant,
+// "identity" when the parameter itself is returned, "?<expr>" when the returned value is outside the
+// interpreter's domain; ok=false when a branch condition cannot be evaluated, the step limit is hit or
+// an index is out of range (a panic, not a value).
 func constFnEval(p *Prog, fn *ssa.Function, k constant.Value) (string, bool) {
 	if len(fn.Params) < 1 || fn.Blocks == nil {
 		return "", false
 	}
 	pa := fn.Params[len(fn.Params)-1]
 	tabs := p.readOnlyGlobalTables()
-	var eval func(v ssa.Value, c *PathCtx, depth int) constant.Value
-	eval = func(v ssa.Value, c *PathCtx, depth int) constant.Value {
-		if depth > 12 {
-			return nil
-		}
-		if c != nil {
-			v = c.Resolve(v)
-		}
+	type addr struct {
+		t   *globalTable
+		idx int64
+	}
+	env := map[ssa.Value]interface{}{} // constant.Value, addr, *globalTable (a loaded map)
+	var val func(v ssa.Value) interface{}
+	val = func(v ssa.Value) interface{} {
 		switch x := v.(type) {
 		case *ssa.Const:
+			if x.Value == nil {
+				return nil
+			}
 			return x.Value
 		case *ssa.Parameter:
 			if x == pa {
 				return k
 			}
-		case *ssa.ChangeType:
-			return eval(x.X, c, depth+1)
-		case *ssa.Convert:
-			in := eval(x.X, c, depth+1)
-			if in == nil {
-				return nil
+			return nil
+		case *ssa.Global:
+			if t := tabs[x]; t != nil {
+				return t
 			}
-			if b, ok := x.Type().Underlying().(*types.Basic); ok && b.Info()&types.IsInteger != 0 && in.Kind() == constant.Int {
+			return nil
+		}
+		return env[v]
+	}
+	zeroOfTable := func(t *globalTable) constant.Value { return t.zero }
+	exec := func(in ssa.Instruction) bool { // false: outside the domain (value stays unknown)
+		switch x := in.(type) {
+		case *ssa.ChangeType:
+			env[x] = val(x.X)
+		case *ssa.Convert:
+			c, ok := val(x.X).(constant.Value)
+			if !ok || c == nil {
+				return true
+			}
+			if b, isB := x.Type().Underlying().(*types.Basic); isB && b.Info()&types.IsInteger != 0 && c.Kind() == constant.Int {
 				if w, signed, ok2 := intWidth(x.Type()); ok2 {
-					iv, exact := constant.Int64Val(in)
+					iv, exact := constant.Int64Val(c)
 					if !exact {
-						return nil
+						return true
 					}
 					if !signed {
 						if w < 64 {
 							iv &= (1 << uint(w)) - 1
 						} else if iv < 0 {
-							return nil
+							return true
 						}
 					} else if w < 64 {
 						sh := uint(64 - w)
 						iv = iv << sh >> sh
 					}
-					return constant.MakeInt64(iv)
+					env[x] = constant.MakeInt64(iv)
 				}
 			}
-			return nil
 		case *ssa.BinOp:
-			a, b := eval(x.X, c, depth+1), eval(x.Y, c, depth+1)
-			if a == nil || b == nil {
-				return nil
+			a, ok1 := val(x.X).(constant.Value)
+			b, ok2 := val(x.Y).(constant.Value)
+			if !ok1 || !ok2 || a == nil || b == nil {
+				return true
 			}
 			switch x.Op {
 			case token.EQL, token.NEQ, token.LSS, token.LEQ, token.GTR, token.GEQ:
-				if a.Kind() != b.Kind() {
-					return nil
+				if a.Kind() == b.Kind() {
+					env[x] = constant.MakeBool(constant.Compare(a, x.Op, b))
 				}
-				return constant.MakeBool(constant.Compare(a, x.Op, b))
 			case token.ADD, token.SUB:
 				if a.Kind() == constant.Int && b.Kind() == constant.Int {
-					return constant.BinaryOp(a, x.Op, b)
+					env[x] = constant.BinaryOp(a, x.Op, b)
 				}
 			}
-			return nil
 		case *ssa.UnOp:
 			switch x.Op {
 			case token.NOT:
-				a := eval(x.X, c, depth+1)
-				if a == nil || a.Kind() != constant.Bool {
-					return nil
+				if a, ok := val(x.X).(constant.Value); ok && a != nil && a.Kind() == constant.Bool {
+					env[x] = constant.MakeBool(!constant.BoolVal(a))
 				}
-				return constant.MakeBool(!constant.BoolVal(a))
 			case token.MUL:
-				ia, ok := x.X.(*ssa.IndexAddr)
-				if !ok {
-					return nil
+				switch a := val(x.X).(type) {
+				case addr:
+					if e, have := a.t.entries[constant.MakeInt64(a.idx).ExactString()]; have {
+						env[x] = e
+					} else {
+						env[x] = zeroOfTable(a.t)
+					}
+				case *globalTable:
+					env[x] = a // the loaded map (or array value)
 				}
-				g, isG := ia.X.(*ssa.Global)
-				t := tabs[g]
-				if !isG || t == nil || t.length < 0 {
-					return nil
-				}
-				idx := eval(ia.Index, c, depth+1)
-				if idx == nil || idx.Kind() != constant.Int {
-					return nil
-				}
-				iv, exact := constant.Int64Val(idx)
-				if !exact || iv < 0 || iv >= t.length {
-					return nil // out of range: a panic, not a value
-				}
-				if e, have := t.entries[idx.ExactString()]; have {
-					return e
-				}
-				return t.zero
 			}
+		case *ssa.IndexAddr:
+			t, ok := val(x.X).(*globalTable)
+			idx, ok2 := val(x.Index).(constant.Value)
+			if !ok || !ok2 || idx == nil || t.length < 0 {
+				return true
+			}
+			iv, exact := constant.Int64Val(idx)
+			if !exact || iv < 0 || iv >= t.length {
+				return false // out of range: a panic
+			}
+			env[x] = addr{t, iv}
 		case *ssa.Lookup:
-			if x.CommaOk {
-				return nil
-			}
-			t := lookupTable(tabs, x.X)
-			if t == nil {
-				return nil
-			}
-			kk := eval(x.Index, c, depth+1)
-			if kk == nil {
-				return nil
-			}
-			if e, have := t.entries[kk.ExactString()]; have {
-				return e
-			}
-			return t.zero
-		case *ssa.Extract:
-			lk, ok := x.Tuple.(*ssa.Lookup)
-			if !ok || !lk.CommaOk {
-				return nil
-			}
-			t := lookupTable(tabs, lk.X)
-			if t == nil {
-				return nil
-			}
-			kk := eval(lk.Index, c, depth+1)
-			if kk == nil {
-				return nil
+			t, ok := val(x.X).(*globalTable)
+			kk, ok2 := val(x.Index).(constant.Value)
+			if !ok || !ok2 || kk == nil || t.length >= 0 {
+				return true
 			}
 			e, have := t.entries[kk.ExactString()]
-			if x.Index == 1 {
-				return constant.MakeBool(have)
+			if !x.CommaOk {
+				if have {
+					env[x] = e
+				} else {
+					env[x] = t.zero
+				}
+			} else {
+				if !have {
+					e = t.zero
+				}
+				env[x] = [2]constant.Value{e, constant.MakeBool(have)}
 			}
-			if have {
-				return e
+		case *ssa.Extract:
+			if tup, ok := val(x.Tuple).([2]constant.Value); ok {
+				env[x] = tup[x.Index]
 			}
-			return t.zero
 		}
-		return nil
+		return true
 	}
-	results := map[string]bool{}
-	undecided := false
-	q := &PathQuery{P: p, Fn: fn}
-	q.Fold = func(cond ssa.Value, c *PathCtx) (bool, bool) {
-		v := eval(cond, c, 0)
-		if v == nil || v.Kind() != constant.Bool {
-			undecided = true
-			return false, false
+	b := fn.Blocks[0]
+	var prev *ssa.BasicBlock
+	for steps := 0; steps < 20000; steps++ {
+		// phis first, simultaneously
+		pi := -1
+		for i, pr := range b.Preds {
+			if pr == prev {
+				pi = i
+			}
 		}
-		return constant.BoolVal(v), true
-	}
-	q.AtReturn = func(ret *ssa.Return, _ uint64, c *PathCtx) {
-		if len(ret.Results) != 1 {
-			undecided = true
-			return
+		newVals := map[ssa.Value]interface{}{}
+		for _, in := range b.Instrs {
+			ph, isPhi := in.(*ssa.Phi)
+			if !isPhi {
+				break
+			}
+			if pi >= 0 {
+				newVals[ph] = val(ph.Edges[pi])
+			}
 		}
-		if v := eval(ret.Results[0], c, 0); v != nil {
-			results[v.ExactString()] = true
-			return
+		for kk, v := range newVals {
+			env[kk] = v
 		}
-		rv := c.Resolve(ret.Results[0])
-		if stripConvs(rv) == ssa.Value(pa) {
-			results["identity"] = true
-			return
+		for _, in := range b.Instrs {
+			switch x := in.(type) {
+			case *ssa.Phi, *ssa.DebugRef:
+				continue
+			case *ssa.If:
+				c, ok := val(x.Cond).(constant.Value)
+				if !ok || c == nil || c.Kind() != constant.Bool {
+					return "", false
+				}
+				prev = b
+				if constant.BoolVal(c) {
+					b = b.Succs[0]
+				} else {
+					b = b.Succs[1]
+				}
+			case *ssa.Jump:
+				prev = b
+				b = b.Succs[0]
+			case *ssa.Return:
+				if len(x.Results) != 1 {
+					return "", false
+				}
+				if c, ok := val(x.Results[0]).(constant.Value); ok && c != nil {
+					return c.ExactString(), true
+				}
+				if stripConvs(x.Results[0]) == ssa.Value(pa) {
+					return "identity", true
+				}
+				return "?" + exprDepth(x.Results[0], 0), true
+			case *ssa.Panic:
+				return "", false
+			default:
+				if !exec(in) {
+					return "", false
+				}
+			}
 		}
-		results["?"+exprDepth(rv, 0)] = true
-	}
-	q.Run()
-	if undecided || len(results) != 1 {
-		return "", false
-	}
-	for s := range results {
-		return s, true
 	}
 	return "", false
 }
@@ -434,6 +460,11 @@ func constFnTable(p *Prog, fn *ssa.Function, extra []constant.Value) (map[string
 			}
 			if g, ok := (*op).(*ssa.Global); ok && tabs[g] != nil {
 				t := tabs[g]
+				// the table's values too: a function may scan the table for its argument
+				for _, ev := range t.entries {
+					add(ev)
+				}
+				add(t.zero)
 				if t.length >= 0 {
 					for i := int64(0); i <= t.length; i++ {
 						add(constant.MakeInt64(i))
